@@ -326,7 +326,11 @@ static std::string run(const Case& k, vf::Ctx& ctx) {
             std::multiset<unsigned> got, want(r.ids.begin(), r.ids.end());
             for (auto& f : it->second) got.insert((unsigned)atoi(f[col["cell_id"]].c_str()));
             if (got != want) {
-                os << "statistics of iteration " << r.iteration << " hold " << got.size() << " rows, " << want.size() << " cells were alive when they were recorded";
+                os << "statistics of iteration " << r.iteration << " hold " << got.size() << " rows, " << want.size() << " cells were alive when they were recorded; ids in the rows {";
+                for (unsigned x : got) os << x << " ";
+                os << "}, ids of the cells {";
+                for (unsigned x : want) os << x << " ";
+                os << "}";
                 return os.str();
             }
             for (auto& f : it->second) {
